@@ -10,7 +10,11 @@ before the history and after the caller has dropped everything it owns (gc-based
 TIE (model correspondence): the history state machine coq/model/History.v, extracted (coq/run/HistoryRun.v),
 predicts the STATE after every call -- text slot of every caller dict, which snippets every cache dict holds a
 table for, size of get_block_name's default lookup, raised/returned -- and is compared with the state observed
-in the implementation."""
+in the implementation.  Second tie: the same state machine over the REAL markup pipeline model (command 2 of
+HistoryRun: History.step with parse / resolve / stringify = model/Markup*.v) predicts the actual output string
+and the text slots of every modelled markup call made inside a history.
+
+C08_SKIP_CORPUS=1 leaves the committed corpus out (sanity runs that must find a defect from generated input)."""
 import glob
 import json
 import os
@@ -153,6 +157,109 @@ def compare_state(h, r, enc, model_out):
     return diffs
 
 
+# ------------------------------------------------------------------ markup half over the real pipeline model (MK)
+ERR_NAMES = {1: 'ScannerException', 2: 'TokenScannerException'}
+INTERNAL_NAMES = {10: 'IndexError', 11: 'TypeError', 12: 'ValueError', 13: 'Exception'}
+
+
+def _mslot(spec):
+    if 'text' not in spec:
+        return [0]
+    t = spec['text']
+    if t is None:
+        return [1]
+    if isinstance(t, str):
+        return [2, 1] + common.enc_str(t)
+    return [2, 2] + common.enc_list(common.enc_str, t)
+
+
+def encode_markup_history(h, r):
+    """the markup calls of `h` for command 2 of the history model (History.step over the MK pipeline model:
+    real abbreviations, real configurations, real output strings).  Calls outside MK (BEM, callbacks, lorem,
+    global_config) are left out: they do not touch the text slots (checked for every call by the state tie)."""
+    import markup_util as mu
+    seq = list(h['calls']) + [h['probe']]
+    nd = len(h['dicts'])
+    slots = [_mslot(s) for s in h['dicts']]
+    default_id = nd + len(seq)
+    calls, which = [], []
+    for k, c in enumerate(seq):
+        via = c['via']
+        if via == 'default':
+            spec, cfg = {}, default_id
+            slots.append([0])
+        else:
+            di = h['objs'][c['d']] if via == 'obj' else c['d']
+            spec = h['dicts'][di]
+            if via in ('copy', 'nocache'):
+                cfg = nd + k
+                slots.append(_mslot(spec))
+            else:
+                cfg = di
+                slots.append([0])
+        if spec.get('type') == 'stylesheet':
+            continue
+        if '@global' in spec or '@tabstop' in json.dumps(spec.get('options') or {}):
+            continue
+        clean = {kk: v for kk, v in spec.items() if kk not in ('cache', '@global')}
+        if mu.mentions_lorem(c['abbr'], clean):
+            continue
+        try:
+            w = [cfg] + mu.enc_config(clean) + common.enc_str(c['abbr'])
+        except mu.NotModelled:
+            continue
+        calls.append(w)
+        which.append(k)
+    if not calls:
+        return None
+    slots.append([0])
+    w = [2, len(slots)]
+    for s in slots:
+        w += s
+    w.append(len(calls))
+    for c in calls:
+        w += c
+    return w, slots, which, default_id
+
+
+def compare_markup(h, r, enc, out):
+    w, slots, which, default_id = enc
+    nd = len(h['dicts'])
+    rd = common.Reader(out)
+    diffs = []
+    for k in which:
+        rec = r['history']['calls'][k]
+        tag = rd.int()
+        if tag == 0:
+            mo = ['ok', rd.str()]
+        elif tag == 1:
+            kind = rd.int()
+            rd.opt(rd.int)
+            mo = ['err', ERR_NAMES.get(kind, 'kind%d' % kind)]
+        elif tag == 2:
+            mo = ['err', INTERNAL_NAMES.get(rd.int(), 'internal')]
+        else:
+            mo = ['fuel']
+        ms = []
+        for i in range(len(slots)):
+            t = rd.int()
+            if t == 2:
+                t2 = rd.int()
+                ms.append([2, t2] + (common.enc_str(rd.str()) if t2 == 1 else common.enc_list(common.enc_str, rd.list(rd.str))))
+            else:
+                ms.append([t])
+        if mo != ['fuel'] and rec['out'] != mo and rec['out'] != ['err', 'RecursionError']:
+            diffs.append('call %d expand(%r): implementation %r, model %r' % (k, (list(h['calls']) + [h['probe']])[k]['abbr'], rec['out'], mo))
+        want = [slot_name(ms[i], slots[i]) for i in range(nd)]
+        if rec['slots'] != want:
+            diffs.append('call %d: text slots %r, model %r' % (k, rec['slots'], want))
+        if rec['tslot'] is not None and rec['tslot'] != slot_name(ms[nd + k], slots[nd + k]):
+            diffs.append('call %d: transient dict text slot %r, model %r' % (k, rec['tslot'], slot_name(ms[nd + k], slots[nd + k])))
+    if not rd.done():
+        diffs.append('trailing model output')
+    return diffs
+
+
 # ------------------------------------------------------------------ evidence
 def cover_history(ctx, h, r):
     seq = list(h['calls']) + [h['probe']]
@@ -254,6 +361,27 @@ def run(ctx):
         if diffs:
             corr['disagreements'] += 1
             disagree[k] = diffs
+    # markup half over the real pipeline model: real output strings of calls made inside histories
+    mcorr = {'histories': 0, 'calls_compared': 0, 'disagreements': 0}
+    if model is not None:
+        mw, midx = [], []
+        for k, ((label, h), r) in enumerate(zip(hs, rs)):
+            if 'worker_error' in r['history']:
+                continue
+            e2 = encode_markup_history(h, r)
+            if e2 is not None:
+                mw.append(e2[0])
+                midx.append((k, e2))
+        for (k, e2), mo in zip(midx, model.run(mw) if mw else []):
+            mcorr['histories'] += 1
+            mcorr['calls_compared'] += len(e2[2])
+            try:
+                d2 = compare_markup(hs[k][1], rs[k], e2, mo)
+            except Exception as e:
+                d2 = ['model output unreadable: %r' % (e,)]
+            if d2:
+                mcorr['disagreements'] += 1
+                disagree.setdefault(k, []).extend(d2)
     n_fail = 0
     unexplained = []
     for k, ((label, h), r) in enumerate(zip(hs, rs)):
@@ -308,7 +436,7 @@ def run(ctx):
         else:
             ctx.broken.append({'kind': 'model-correspondence', 'file': 'history %d (%s): %s' % (k, label, '; '.join(disagree[k])[:600]),
                                'history': h})
-    ctx.cov['correspondence'] = {'history-state-machine': corr}
+    ctx.cov['correspondence'] = {'history-state-machine': corr, 'history-over-markup-pipeline-model': mcorr}
     # the fork server's "fresh state" is re-checked against really fresh interpreters
     n_once = 24 if ctx.tier == 'quick' else 200
     picks = []
